@@ -352,7 +352,7 @@ def _child(idx, timeout_ms, seed, conn):
         os._exit(0)
 
 
-def discharge(obs, timeout_ms=20000, procs=16, seed=0, ext_timeout_s=20, use_external=True, retry=True):
+def discharge(obs, timeout_ms=20000, procs=16, seed=0, ext_timeout_s=20, use_external=True, retry=True, no_retry=()):
     """Each obligation is solved in its own forked process, hard-killed at timeout + grace.
     -> list of result dicts aligned with obs."""
     global _OBS
@@ -408,7 +408,8 @@ def discharge(obs, timeout_ms=20000, procs=16, seed=0, ext_timeout_s=20, use_ext
     if retry:
         # verdicts must not flip when the machine is busy: whatever is still `unknown` is run once more with
         # three times the budget (few instances: on an unchanged tree there are none)
-        again = [i for i, r in enumerate(results) if obs[i].kind == 'ob' and r['result'] == 'unknown']
+        again = [i for i, r in enumerate(results) if obs[i].kind == 'ob' and r['result'] == 'unknown' and
+                 obs[i].name not in no_retry]      # listed known findings are expected to stay open
         if 0 < len(again) <= 24:
             sub = discharge([obs[i] for i in again], timeout_ms=timeout_ms * 3, procs=min(procs, 8), seed=seed + 7,
                             ext_timeout_s=ext_timeout_s * 2, use_external=use_external, retry=False)
